@@ -688,6 +688,83 @@ pub fn run(ctx: &mut Ctx) {
             ctx.fail(&format!("diags-depend-on-a-notification-that-is-no-edit/{}", nname.split('(').next().unwrap_or(nname)), &format!("text {}, notification {}: {}", kind_of(t), nname, p), json!({"mode":"contents","contents":format!("notification {} text {}", nname, kind_of(t))}));
         }
     }
+    // a client that runs ahead of the server: 2 to 6 notifications are sent before anything is read (the server
+    // finds them queued); every notification is still answered by its own publishDiagnostics, in order, with the
+    // content a lock-step client gets
+    {
+        let uris = ["file:///w/a.st", "file:///w/b.st"];
+        // (uri index, text index, is-open) sequences: all pairs over 2 uris x 6 texts, and runs of 3..6 changes to one document
+        let mut seqs: Vec<Vec<(usize, usize)>> = vec![];
+        for u1 in 0..2usize {
+            for t1 in 0..TEXTS.len() {
+                for t2 in 0..TEXTS.len() {
+                    seqs.push(vec![(0, t1), (u1, t2)]);
+                }
+            }
+        }
+        for len in 3..=6usize {
+            for start in 0..TEXTS.len() {
+                seqs.push((0..len).map(|i| (0usize, (start + i) % TEXTS.len())).collect());
+                seqs.push((0..len).map(|i| (i % 2, (start + i) % TEXTS.len())).collect());
+            }
+        }
+        let res: Vec<Option<String>> = seqs
+            .par_iter()
+            .map(|seq| {
+                // lock-step reference
+                let mut r = MemSrv::new(Some(vec![0, 1]));
+                let mut want = vec![];
+                for u in 0..2 {
+                    let _ = r.step(&did_open(uris[u], 1, text_of(0)));
+                }
+                for (i, (u, t)) in seq.iter().enumerate() {
+                    let o = r.step(&did_change(uris[*u], 2 + i as i64, &[text_of(*t)]));
+                    let pubs: Vec<&Value> = o.msgs.iter().filter(|v| v["method"] == "textDocument/publishDiagnostics").collect();
+                    if pubs.len() != 1 {
+                        return None; // the lock-step histories are judged elsewhere
+                    }
+                    want.push((uris[*u].to_string(), 2 + i as i64, crate::lspx::diag_set(pubs[0])));
+                }
+                let _ = Box::new(r).finish();
+                // the same notifications in one burst
+                let mut s = MemSrv::new(Some(vec![0, 1]));
+                for u in 0..2 {
+                    let _ = s.step(&did_open(uris[u], 1, text_of(0)));
+                }
+                let msgs: Vec<Value> = seq.iter().enumerate().map(|(i, (u, t))| did_change(uris[*u], 2 + i as i64, &[text_of(*t)])).collect();
+                let o = s.burst(&msgs);
+                let _ = Box::new(s).finish();
+                if o.status != Status::Alive {
+                    return Some("the server died".to_string());
+                }
+                let got: Vec<(String, i64, DiagSet)> = o
+                    .msgs
+                    .iter()
+                    .filter(|v| v["method"] == "textDocument/publishDiagnostics")
+                    .map(|v| (v["params"]["uri"].as_str().unwrap_or("").to_string(), v["params"]["version"].as_i64().unwrap_or(-1), crate::lspx::diag_set(v)))
+                    .collect();
+                if got.len() != want.len() {
+                    Some(format!("{} notifications sent ahead, {} publishDiagnostics (versions {:?})", want.len(), got.len(), got.iter().map(|g| g.1).collect::<Vec<_>>()))
+                } else if got != want {
+                    Some(format!("published {:?}, a lock-step client gets {:?}", got.iter().map(|g| (g.0.as_str(), g.1, g.2.len())).collect::<Vec<_>>(), want.iter().map(|g| (g.0.as_str(), g.1, g.2.len())).collect::<Vec<_>>()))
+                } else {
+                    None
+                }
+            })
+            .collect();
+        for (seq, problem) in seqs.iter().zip(res.iter()) {
+            hist_count += 1;
+            if let Some(p) = problem {
+                let same = seq.iter().all(|x| x.0 == seq[0].0);
+                ctx.fail(
+                    &format!("notifications-sent-ahead/{}/{}", if same { "one-document" } else { "two-documents" }, if seq.len() == 2 { "two" } else { "several" }),
+                    &format!("changes {:?} (document, text) sent without waiting: {}", seq.iter().map(|(u, t)| (["a", "b"][*u], kind_of(*t))).collect::<Vec<_>>(), p),
+                    json!({"mode":"contents","contents":format!("burst {:?}", seq)}),
+                );
+            }
+        }
+        ctx.bounds.insert("notifications_sent_ahead".into(), json!(format!("{} bursts: every ordered pair of changes over 2 documents x {} texts, runs of 3..6 changes to one document and alternating between two", seqs.len(), TEXTS.len())));
+    }
     ctx.bounds.insert("many_documents".into(), json!("N in 1,7,8,9,…,255,256,257 unrelated documents x 3 faulty texts x {re-sent to the same document, moved to another document}"));
     ctx.evaluations = transitions + hist_count;
     ctx.extra.insert("histories_without_dedup".into(), json!(hist_count));
